@@ -79,8 +79,18 @@ pub struct Pki {
 }
 
 static PKI: OnceLock<Pki> = OnceLock::new();
+/// request heads received (decrypted) by the TLS origins: (token in the path, port, head)
+static ORIGIN_LOG: std::sync::Mutex<Vec<(String, u16, Vec<u8>)>> = std::sync::Mutex::new(Vec::new());
+
+pub fn origin_log_take(token: &str) -> Vec<(u16, Vec<u8>)> {
+    let mut g = ORIGIN_LOG.lock().unwrap();
+    let (mine, rest): (Vec<_>, Vec<_>) = g.drain(..).partition(|x| x.0 == token);
+    *g = rest;
+    mine.into_iter().map(|x| (x.1, x.2)).collect()
+}
 
 fn serve_tls(acceptor: Arc<SslAcceptor>, l: TcpListener) {
+    let port = l.local_addr().map(|a| a.port()).unwrap_or(0);
     for s in l.incoming() {
         let Ok(s) = s else { continue };
         let acc = acceptor.clone();
@@ -96,7 +106,23 @@ fn serve_tls(acceptor: Arc<SslAcceptor>, l: TcpListener) {
                         Ok(n) => got.extend_from_slice(&buf[..n]),
                     }
                 }
-                let _ = t.write_all(b"HTTP/1.1 200 OK\r\nContent-Length: 2\r\nConnection: close\r\n\r\nok");
+                // paths of the form /<token>/... are recorded; /<token>/redir-<port> answers 307 to that port
+                let text = String::from_utf8_lossy(&got).to_string();
+                let path = text.split_whitespace().nth(1).unwrap_or("").to_string();
+                let mut redirect = None;
+                if let Some(rest) = path.strip_prefix("/tk") {
+                    let token = format!("tk{}", rest.split('/').next().unwrap_or(""));
+                    ORIGIN_LOG.lock().unwrap().push((token.clone(), port, got.clone()));
+                    if let Some(i) = path.find("/redir-") {
+                        let p: String = path[i + 7..].chars().take_while(|c| c.is_ascii_digit()).collect();
+                        redirect = Some(format!("https://good.test:{}/{}/final", p, token));
+                    }
+                }
+                if let Some(loc) = redirect {
+                    let _ = t.write_all(format!("HTTP/1.1 307 Temporary Redirect\r\nLocation: {}\r\nContent-Length: 0\r\nConnection: close\r\n\r\n", loc).as_bytes());
+                } else {
+                    let _ = t.write_all(b"HTTP/1.1 200 OK\r\nContent-Length: 2\r\nConnection: close\r\n\r\nok");
+                }
                 let _ = t.shutdown();
             }
         });
@@ -177,11 +203,11 @@ pub fn pki() -> &'static Pki {
 }
 
 #[cfg(not(feature = "rustls-backend"))]
-fn root_cert(p: &Pki) -> native_tls::Certificate {
+pub fn root_cert(p: &Pki) -> native_tls::Certificate {
     native_tls::Certificate::from_pem(&p.ca_pem).unwrap()
 }
 #[cfg(feature = "rustls-backend")]
-fn root_cert(p: &Pki) -> rustls::pki_types::CertificateDer<'static> {
+pub fn root_cert(p: &Pki) -> rustls::pki_types::CertificateDer<'static> {
     rustls::pki_types::CertificateDer::from(p.ca_der.clone())
 }
 pub fn backend() -> &'static str {
